@@ -165,7 +165,7 @@ PROPS["C06"] = {
              "mutated != canonical, >=1 query key). Distinct by hash of (target, input)."),
     "assumptions": [],
     "lanes": [
-        lane("TestMatrix", "matrix", 0, 0, norapid=True, must_classes=["pos:array-element", "pos:map-value", "pos:oneof-type-only"]),
+        lane("TestMatrix", "matrix", 0, 0, norapid=True, must_classes=["pos:array-element", "pos:map-value", "pos:oneof-type-only", "pos:grid:plain", "pos:grid:query"]),
         lane("TestDeep", "deep", 0, 0, norapid=True),
         lane("TestMutate", "mutate", 1200, 5000, shards=16),
         lane("TestQuery", "query", 20000, 80000, shards=8),
@@ -291,7 +291,7 @@ PROPS["C14"] = {
              "Distinct by hash(sources, file order, call order)."),
     "assumptions": [],
     "lanes": [
-        lane("TestDeterminism", "determinism", 150, 800, shards=16, must_classes=["enum-option-info", "multi-package", "multi-file-package", "stale-generated-file"]),
+        lane("TestDeterminism", "determinism", 150, 800, shards=16, must_classes=["enum-option-info", "multi-package", "multi-file-package", "stale-generated-file", "nested-package"]),
     ],
 }
 
@@ -308,7 +308,7 @@ PROPS["C13"] = {
              "last of its file. Distinct by hash(final sources, edit kinds)."),
     "assumptions": [],
     "lanes": [
-        lane("TestAppend", "append", 150, 800, shards=16, must_classes=["not-last-in-file", "edit:option-to-enum", "edit:field-to-object", "edit:declaration-to-file", "name:shadows-top-level-type", "name:sorts-first"]),
+        lane("TestAppend", "append", 150, 800, shards=16, must_classes=["not-last-in-file", "edit:option-to-enum", "edit:field-to-object", "edit:declaration-to-file", "name:shadows-top-level-type", "name:sorts-first", "name:option-ends-in-unspecified"]),
     ],
 }
 
@@ -401,7 +401,7 @@ PROPS["C17"] = {
     "rule": ("entity: j5sgen.Draw(EntityOnly) with 1-2 files each holding an entity. Non-trivial: >=2 keys with different flag combinations, or >=1 event and >=1 summary. Distinct by hash of the sources."),
     "assumptions": ["README entity section; the statement of C17"],
     "lanes": [
-        lane("TestEntity", "entity", 200, 1200, shards=16, must_classes=["shard-key", "foreign-key", "tenant-key", "events:0", "summaries:2", "commands:2", "command-options", "entity-nested-schema"]),
+        lane("TestEntity", "entity", 200, 1200, shards=16, must_classes=["shard-key", "foreign-key", "tenant-key", "events:0", "summaries:2", "summary-unnamed-after-named", "commands:2", "command-options", "entity-nested-schema"]),
     ],
 }
 
